@@ -286,8 +286,13 @@ bool cmb_event_execute_next(void)
         return false;
     }
 
-    /* Pull off the next event and decode it */
-    struct event_peek *tmp = (struct event_peek *)cmi_hashheap_dequeue(event_queue);
+    /*
+     * Pull off the next event and decode it. Take a copy, since the temporary
+     * location in the hashheap does not survive the queue growing, which can
+     * happen already when scheduling the wakeups of any waiting processes.
+     */
+    struct event_peek ev = *(struct event_peek *)cmi_hashheap_dequeue(event_queue);
+    struct event_peek *tmp = &ev;
 
     /* Advance clock to time of the next event */
     const double new_time = event_queue->heap[0].dsortkey;
